@@ -83,7 +83,7 @@ theorem residual_wf_of_search (errors : List Int) (warm maxP : Nat) (prc : PrcPa
   exact ofErrors_wf errors warm prc.order prc.ps errors.length rfl (by omega) h15 hpl hdvd hw hp herr
 
 /-- The residual the encoder emits after a successful search, for a predictor order below
-`MIN_PARTITION_SIZE = 64` (fixed orders are at most 4, LPC orders at most 32): every partition holds at
+`MIN_PARTITION_SIZE = 64` (fixed orders are at most 4, LPC orders at most 24): every partition holds at
 least 64 values, so the first one is LONGER than the predictor order, as RFC 9639 section 9.2.7 demands,
 and the strict reader accepts. (For `warm ≥ 64` the search may return a partition order with
 `n >> order = warm` — e.g. `n = warm = 64`, partition order 0 —, which the strict reader rejects; the
